@@ -342,6 +342,7 @@ class RefTransfer:
         self.tol_src = [dict() for _ in src]
         self.tol_dst = [dict() for _ in dst]
         self.zero_source = False
+        draws = [0] * len(src)          # earlier aliquots taken from the same source within this call
         for i, j in self.pairs:
             a = src[i]
             size = ref.size(a, fam)
@@ -365,19 +366,23 @@ class RefTransfer:
                 if q < 0:
                     self._note_margin(-math.inf, 'negative')
             self.eps = max(self.eps, eps)
+            vol_before = ref.volume_storage(a)
             for n in names:
                 mv = phi * a[n]
-                tol = 3 * ref.grain_base(n) + 6 * eps * abs(mv)
+                # every earlier aliquot left the source's stored composition off by up to one grain of each
+                # amount (eps, relative to the measured size): the k-th aliquot of a 1-to-N transfer inherits k of them
+                tol = 3 * ref.grain_base(n) + (6 + draws[i]) * eps * abs(mv)
                 a[n] = a[n] - mv
                 dst[j][n] = dst[j].get(n, 0.0) + mv
                 self.tol_src[i][n] = self.tol_src[i].get(n, 0.0) + tol
                 self.tol_dst[j][n] = self.tol_dst[j].get(n, 0.0) + tol
+            draws[i] += 1
             # capacity of the destination after this aliquot
             newvol = ref.volume_storage(dst[j])
             cap = caps[j]
             if not math.isinf(cap):
                 vg = sum(ref.grain_base(n) * abs(ref.subs[n].factor('L')) for n in dst[j]) / cfg.vol_mult + cfg.grain
-                band = (vg + 8 * eps * abs(phi) * ref.volume_storage(src[i]) + 1e-9 * cap) / cap
+                band = (vg + 8 * eps * abs(phi) * vol_before + 1e-9 * cap) / cap      # 8 eps of the volume moved
                 self._note_margin_band((cap - newvol) / cap, band, 'capacity')
         self.expected = (src, dst)
 
